@@ -161,6 +161,9 @@ func (s *Sweeper) sweep(ctx context.Context) error {
 				last, limitReached = ls.Cursor()
 				return ls.Err()
 			})
+			if err != nil {
+				return fmt.Errorf("failed to sweep dbi %s: %w", dbiName, err)
+			}
 			if limitReached {
 				l.Debug("Sweep limit reached, continuing after pause")
 				// Give the app some room to get a write lock before continuing
@@ -168,9 +171,6 @@ func (s *Sweeper) sweep(ctx context.Context) error {
 					return err
 				}
 				continue
-			}
-			if err != nil {
-				return fmt.Errorf("failed to sweep dbi %s: %w", dbiName, err)
 			}
 
 			// Done with this DBI
